@@ -1,0 +1,15 @@
+//go:build verif
+// +build verif
+
+package geom
+
+// VerifSimplifyHook, when set, is called at every step of the simplifier's
+// loops with the current output length and the input length, so that a
+// monitor can assert bounded progress. Only present under the verif tag.
+var VerifSimplifyHook func(outLen, curveLen int)
+
+func verifSimplifyStep(outLen, curveLen int) {
+	if VerifSimplifyHook != nil {
+		VerifSimplifyHook(outLen, curveLen)
+	}
+}
